@@ -21,7 +21,8 @@ ASSUMPTIONS = [
     "look-back clause is strict for default options; with allow_billing_period_overshoot the first (last) row must be the "
     "row nearest to the target among rows on the permitted side of the cut (ties: either); with "
     "ignore_billing_period_gap_for_day_count=True measuring max_days from the requested instant or from the last (first) "
-    "data point at/before (at/after) it are both accepted",
+    "data point at/before (at/after) it are both accepted - for the baseline only while the gap is within the documented tolerance "
+    "(n_days_billing_period_overshoot None, or gap shorter than it); a longer gap must be measured from the requested end",
     "rows strictly inside the permitted window must be present (boundary rows are allowed, not required, on the look-back side)",
     "a gap warning is required only for explicitly requested instants (end for baseline, start for reporting, and an explicit "
     "start/end passed with max_days=None); warnings for limits derived from max_days are allowed, not required",
@@ -77,6 +78,10 @@ def cut_instants(idx):
     out.append(("far_before", idx[0] - pd.Timedelta(days=12)))
     out.append(("after", idx[-1] + step))
     out.append(("far_after", idx[-1] + pd.Timedelta(days=12)))
+    # around the n_days_billing_period_overshoot tolerances (0 and 3 days) beyond either end of the data
+    for lab, d in (("h12", 0.5), ("d1", 1.0), ("d3-1h", 3.0 - 1 / 24), ("d3", 3.0), ("d3+12h", 3.5), ("d4", 4.0)):
+        out.append((f"after+{lab}", idx[-1] + pd.Timedelta(days=d)))
+        out.append((f"before-{lab}", idx[0] - pd.Timedelta(days=d)))
     return out
 
 
@@ -197,7 +202,11 @@ def run_baseline(data, end, max_days, start, opt, key0):
     if max_days is not None:
         targets.append(end - pd.Timedelta(days=max_days))
         if opt["ignore"] and before.any():
-            targets.append(idx[before].max() - pd.Timedelta(days=max_days))
+            data_end = idx[before].max()
+            # the documented tolerance: the gap between the requested end and the last reading is ignored for the day count when
+            # no tolerance is given or the gap is shorter than n_days_billing_period_overshoot; a longer gap is NOT ignored
+            if opt["nover"] is None or end - pd.Timedelta(days=opt["nover"]) < data_end:
+                targets.append(data_end - pd.Timedelta(days=max_days))
     elif start is not None:
         targets.append(start)
     lo_strict = max(targets) if targets else None  # rows >= this are inside under every reading
